@@ -49,10 +49,13 @@ fn dump_bucket(b: &Bucket, path: Vec<i64>, out: &mut Vec<Value>) {
 
 fn main() {
     let outdir = std::env::args().nth(1).expect("outdir");
+    // "grown": the same transactions on a file created with 4 pages, so that the first commit extends it
+    // by the 8 MiB step (the length is then not a multiple of a page size that does not divide 8 MiB)
+    let grown = std::env::args().nth(2).map(|x| x == "grown").unwrap_or(false);
     for ps in [1024u64, 4096, 5000, 16384] {
-        let path = format!("{}/golden-{}.db", outdir, ps);
+        let path = if grown { format!("{}/golden-{}-grown.db", outdir, ps) } else { format!("{}/golden-{}.db", outdir, ps) };
         let _ = std::fs::remove_file(&path);
-        let db = OpenOptions::new().pagesize(ps).num_pages(96).open(&path).unwrap();
+        let db = OpenOptions::new().pagesize(ps).num_pages(if grown { 4 } else { 96 }).open(&path).unwrap();
         // tx 1: a bucket with pairs of all sizes, nested buckets two levels deep
         {
             let tx = db.tx(true).unwrap();
@@ -104,7 +107,7 @@ fn main() {
             }
         }
         drop(db);
-        std::fs::write(format!("{}/golden-{}.json", outdir, ps),
+        std::fs::write(format!("{}/golden-{}{}.json", outdir, ps, if grown { "-grown" } else { "" }),
                        serde_json::to_string(&json!({"pagesize": ps, "profile": "overflow", "nkeys": 16, "nvals": 6,
                                                      "dump": out})).unwrap()).unwrap();
         println!("wrote {} ({} entries)", path, out.len());
